@@ -30,6 +30,9 @@ type PullOpts struct {
 	ServerSeed   int32
 	ReadFilter   bool // the pushing client sends a filter list first (--delete)
 	OptsFromArgs bool
+	// PlanAll: after the regular files, Plan is also asked about (and may
+	// request) entries that are not regular files - a hostile receiver.
+	PlanAll bool
 }
 
 type FileResult struct {
@@ -119,9 +122,22 @@ func pullTransfer(w *Wire, o PullOpts, res *PullResult) (*PullResult, error) {
 	}
 	res.Sorted = res.List.Sorted()
 	res.Stage = "transfer"
+	order := make([]int, 0, len(res.Sorted))
 	for idx := range res.Sorted {
+		if res.Sorted[idx].IsReg() {
+			order = append(order, idx)
+		}
+	}
+	if o.PlanAll {
+		for idx := range res.Sorted {
+			if !res.Sorted[idx].IsReg() {
+				order = append(order, idx)
+			}
+		}
+	}
+	for _, idx := range order {
 		e := &res.Sorted[idx]
-		if !e.IsReg() || o.Plan == nil {
+		if o.Plan == nil {
 			continue
 		}
 		req, basis, bl, sl := o.Plan(idx, e, res.Seed)
